@@ -117,3 +117,39 @@ Proof.
   exists [("a", 0); ("b", 0)], [("b", 0); ("a", 0)]. split; [apply perm_swap|].
   vm_compute. discriminate.
 Qed.
+
+(* ---------------------------------------------------------------- keyed insert-if-absent merges *)
+Fixpoint first_assoc (k : string) (es : list (string * nat)) : option nat :=
+  match es with [] => None | (k', v) :: r => if String.eqb k k' then Some v else first_assoc k r end.
+
+Lemma merge_if_absent_spec (child : list (string * nat)) :
+  forall (parent : table) (k : string),
+    merge_if_absent parent child k = match parent k with Some v => Some v | None => first_assoc k child end.
+Proof.
+  unfold merge_if_absent. induction child as [|[k' v] child IH]; intros parent k; cbn [fold_left first_assoc].
+  - destruct (parent k); reflexivity.
+  - rewrite IH. unfold merge_step; cbn [fst snd].
+    destruct (parent k') as [w|] eqn:Hp'.
+    + destruct (parent k) as [u|] eqn:Hp; [reflexivity|].
+      destruct (String.eqb_spec k k') as [->|_]; [rewrite Hp' in Hp; discriminate|reflexivity].
+    + destruct (String.eqb_spec k k') as [->|_].
+      * rewrite Hp'. reflexivity.
+      * reflexivity.
+Qed.
+
+Lemma first_assoc_perm (es es' : list (string * nat)) (k : string) :
+  NoDup (map fst es) -> Permutation es es' -> first_assoc k es = first_assoc k es'.
+Proof.
+  intros ND P; induction P as [|[k1 v1] l l' P IH|[k1 v1] [k2 v2] l|l l' l'' P1 IH1 P2 IH2]; cbn [first_assoc map fst] in *.
+  - reflexivity.
+  - apply NoDup_cons_iff in ND as [_ ND]. rewrite (IH ND). reflexivity.
+  - destruct (String.eqb_spec k k2) as [->|_]; [|reflexivity].
+    destruct (String.eqb_spec k2 k1) as [->|_]; [|reflexivity].
+    exfalso. apply NoDup_cons_iff in ND as [Hn _]. apply Hn. left; reflexivity.
+  - rewrite (IH1 ND). apply IH2. eapply Permutation_NoDup; [apply Permutation_map; exact P1|exact ND].
+Qed.
+
+Lemma merge_if_absent_permutation_invariant_lemma (parent : table) (child child' : list (string * nat)) :
+  NoDup (map fst child) -> Permutation child child' ->
+  forall k, merge_if_absent parent child k = merge_if_absent parent child' k.
+Proof. intros ND P k. rewrite !merge_if_absent_spec. destruct (parent k); [reflexivity|apply first_assoc_perm; assumption]. Qed.
